@@ -126,7 +126,10 @@ Fixpoint pairwise {A} (f : A -> A -> bool) (l : list A) : bool :=
 Definition disjoint (p q : prefix) : bool := negb (overlaps 32 p q).
 
 Definition valid_state (d : dstate) : bool :=
-  pairwise disjoint (map fst (d_pools d))
+  forallb (wfpb 32) (map fst (d_pools d)) && forallb (wfpb 32) (map fst (d_blocks d))
+  && forallb (fun e => wfpb 32 (fst e) && negb (prefix_eqb (fst e) (host32 0))) (all_dsts d)
+  && pairwise (fun a b => negb (N.eqb (fst a) (fst b))) (d_nodes d)
+  && pairwise disjoint (map fst (d_pools d))
   && pairwise disjoint (map fst (d_blocks d))
   && pairwise (fun a b => negb (prefix_eqb (fst a) (fst b))) (all_dsts d)
   (* a block lies inside a pool or apart from all of them; allocations lie inside their block *)
